@@ -331,7 +331,13 @@ func hexBytes(b []byte) string {
 	return sb.String()
 }
 
+// encStringsAsRunes: print string values as code points (table-parser stream) instead of UTF-8 bytes
+var encStringsAsRunes bool
+
 func encScalar(fd protoreflect.FieldDescriptor, v protoreflect.Value) string {
+	if encStringsAsRunes && fd.Kind() == protoreflect.StringKind {
+		return encStr(v.String())
+	}
 	switch fd.Kind() {
 	case protoreflect.BoolKind:
 		if v.Bool() {
